@@ -23,7 +23,8 @@ import (
 // Every kind is applied to every call expression of a file, so a checker that recognises an API
 // by name and then trusts the arity or the types the compiler would have enforced meets a call
 // that does not have them.
-var illKinds = []string{"noargs", "droplast", "intfirst", "nilfirst", "extra", "undeffirst", "strlits", "noimports", "swapargs", "callfirst"}
+var illKinds = []string{"noargs", "droplast", "intfirst", "nilfirst", "extra", "undeffirst", "strlits", "noimports", "swapargs", "callfirst",
+	"undeftypes", "undefsel", "undeffun", "nobodies", "noresults", "extrarhs", "noelts", "undefelts"}
 
 // cmdIlltype copies the example directories of all checkers into the scratch module, once
 // per kind, and prints the relative package directories.
@@ -79,7 +80,16 @@ func cmdIlltype(args []string) {
 	fmt.Printf("{\"ill_packages\":%d,\"mutated_calls\":%d}\n", len(pats), ncalls)
 }
 
-func illMutate(path, kind string) ([]byte, int, error) {
+func illMutate(path, kind string) (src []byte, n int, err error) {
+	defer func() {
+		if r := recover(); r != nil {
+			err = fmt.Errorf("printer: %v", r) // a tree the printer cannot render: that file is left out
+		}
+	}()
+	return illMutate1(path, kind)
+}
+
+func illMutate1(path, kind string) ([]byte, int, error) {
 	fset := token.NewFileSet()
 	f, err := parser.ParseFile(fset, path, nil, 0)
 	if err != nil {
@@ -106,7 +116,56 @@ func illMutate(path, kind string) ([]byte, int, error) {
 				x.Kind, x.Value = token.STRING, `"s"`
 				n++
 			}
+		case *ast.Field:
+			if _, isFn := x.Type.(*ast.FuncType); kind == "undeftypes" && x.Type != nil && !isFn {
+				x.Type = ast.NewIdent("undefinedT")
+				n++
+			}
+		case *ast.ValueSpec:
+			if kind == "undeftypes" && x.Type != nil {
+				x.Type = ast.NewIdent("undefinedT")
+				n++
+			}
+		case *ast.SelectorExpr:
+			if kind == "undefsel" {
+				x.Sel = ast.NewIdent("undefinedSel")
+				n++
+			}
+		case *ast.FuncDecl:
+			if kind == "nobodies" && x.Body != nil {
+				x.Body = nil
+				n++
+			}
+		case *ast.ReturnStmt:
+			if kind == "noresults" && len(x.Results) > 0 {
+				x.Results = nil
+				n++
+			}
+		case *ast.AssignStmt:
+			if kind == "extrarhs" && len(x.Rhs) == 1 {
+				x.Rhs = append(x.Rhs, lit(token.INT, "0"))
+				n++
+			}
+		case *ast.CompositeLit:
+			switch kind {
+			case "noelts":
+				if len(x.Elts) > 0 {
+					x.Elts = nil
+					n++
+				}
+			case "undefelts":
+				for i := range x.Elts {
+					x.Elts[i] = ast.NewIdent("undefinedName")
+					n++
+				}
+			}
 		case *ast.CallExpr:
+			if kind == "undeffun" {
+				if _, isLit := x.Fun.(*ast.FuncLit); !isLit {
+					x.Fun = ast.NewIdent("undefinedFn")
+					n++
+				}
+			}
 			switch kind {
 			case "noargs":
 				x.Args, x.Ellipsis = nil, token.NoPos
